@@ -52,6 +52,16 @@ CHECKS = {
    text="TLC checks list = product, associativity, multiplicative determinant, rotate-about-centre, and affine invariance of Bezier evaluation for every list of <= 3 of 14 operations, and JointsKept (incl. the closing joint) for every joint pattern with independently rounded images; all ~200 distinct product matrices are applied with transform() to lattice Beziers (1e-12) and lattice arcs (1e-6) and image.point(t) is compared with M(point(t)); translated / rotated (default and explicit origins, angles incl. 390) / scaled (2, 1/2, -1, -3, 1/3; non-uniform on Beziers; arcs must refuse or be right); every joint pattern of <= 4 segments (L / Q / C / A mixes) is mapped with rounding-prone factors and joints that coincided must coincide exactly, closed paths stay closed.",
    note="Trusted: TLC, numpy for applying M to a point. Singular matrices are not generated (outside the property).",
    ref="4 (C10), 3.9"),
+ 'C11': dict(
+   technique="TLA+ exact crossing oracle on the integer lattice (Crossings.tla: pairs constructed to meet at known rational parameters, provably disjoint pairs) model-checked with TLC; every pair replayed through intersect in both operand orders",
+   text="TLC checks MeetExactly, Monotone, TransversalOK (the constructed crossing exists, is unique and transversal) and Separated for all pairs of Line/Quadratic/Cubic control polygons of the families; for a sample of them (all nine type pairs, parameters k/3 and the dyadic k/2, gaps of 1-2 lattice units for the disjoint ones) every returned pair must be in [0,1]^2, its two points must coincide, it must be the known crossing (nothing at all for disjoint pairs), and swapping the operands must give the same crossing points; circle-lattice families for Arc-Line, Arc-Quadratic, Arc-Cubic and circular Arc-Arc; Path.intersect: the four points coincide and the segments are members.",
+   note="Trusted: TLC; point evaluation of the library for the coincidence test. Pairs off the lattice are not decided; general (rotated / elliptical) arc-arc pairs may raise, as documented.",
+   ref="4 (C11), 3.11"),
+ 'C12': dict(
+   technique="TLA+ exact crossing oracle (Crossings.tla: constructed transversal crossings, exact crossing counts by isolated sign changes) model-checked with TLC; every constructed crossing must be found, once, by intersect / Path.intersect",
+   text="For the constructed pairs of Crossings.tla (tangents >= 6 degrees apart, parameters strictly inside (0,1), unique crossing proved in the model) the crossing must be reported within 1e-4 of the true parameters exactly once, in both operand orders; pairs involving a Line must report exactly one pair; a long line against every lattice quadratic in general position must report exactly the model's number of crossings (0, 1 or 2); circle-lattice arc families with 1-2 known crossings; two path families whose crossings lie strictly inside segments; generic lattice Bezier pairs must not report a crossing twice.",
+   note="Trusted: TLC. Open findings (printed as KNOWN-FINDING): Bezier-Bezier crossings at dyadic parameters of both curves are lost; generic Bezier-Bezier crossings can be reported several times.",
+   ref="4 (C12), 3.11"),
  'C13': dict(
    technique="TLA+ lattice model of point-to-segment distance (RadialRange.tla: closed form for lines, exact witness distances for curves) model-checked with TLC; every (segment, query point) case replayed through radialrange / closest_point_in_path / farthest_point_in_path",
    text="TLC checks LineMinIsMin, LineMaxAtEnd and WitnessBounds along the walk over the witnesses for 10 lattice segments (lines, parabola with its centre of curvature and focus, cusped, folded and S-shaped cubics) x 15 query points (far, near, on the curve, beyond the ends); each case - plain, scaled 1e-3 with an offset, rotated 30 degrees and scaled 1e4 - must return parameters in [0,1], d = |point(t)-z|, no witness closer than dmin or farther than dmax, the exact projection on lines and 0 for points on the curve; random paths of model segments: the extreme over the segments with the index of the segment attaining it.",
